@@ -494,8 +494,10 @@ class World:
         if path == z.SERVER_PRESENCE:
             # adjust_presence reloads the servers the MODEL holds as down and
             # that are in the snapshot; the model's state is what it recorded
+            # (a server that never had a state recorded is held as down:
+            # adjust_server_state defaults to it and records only changes)
             return sorted(name for name in self.truth.srv
-                          if self._stored_state(name) == 'down')
+                          if self._stored_state(name) in ('down', None))
         if path != z.EVENTS:
             return None
         import re as _re
